@@ -525,8 +525,22 @@ async fn run_panic<B: Backend>(b: &B, prog0: &Arc<Program>, seed: u64, victim: N
         let Built { engine, or, .. } = build(b, &prog, seed).await;
         let t = engine.clone().tracked().await;
         let r = bounded(AssertUnwindSafe(query_node(&t, *n)).catch_unwind(), 20).await;
+        // ... and once more on the same state, nothing changed in between: the victim still
+        // panics, so the answer must be the panic again - not a value put together from what
+        // was stored before the panic
+        let r2 = if matches!(r, Ok(Err(_))) { Some(bounded(AssertUnwindSafe(query_node(&t, *n)).catch_unwind(), 20).await) } else { None };
         drop(t);
         let mut wedged = false;
+        if let Some(Ok(Ok(v))) = &r2 {
+            let mut clean = (**prog0).clone();
+            clean.poison = None;
+            let (exp, _) = Oracle::new(Arc::new(clean)).expect_with(&or, &[*n]);
+            if exp.contains_key(&victim) {
+                viol.push(("panic-swallowed-on-second-request".into(), Json::obj().set("node", format!("{n:?}")).set("returned", *v).set("from_scratch_without_the_panic", exp[n])));
+            }
+        } else if let Some(Err(Wait::Deadlock)) = &r2 {
+            viol.push(("deadlock-after-panic".into(), Json::obj().set("node", format!("{n:?}")).set("request", "second")));
+        }
         match r {
             Ok(Err(payload)) => {
                 reached = true;
